@@ -502,6 +502,17 @@ def r66(db, ctx):
             rels = G.relations(f, R, bi)
             if not any(r[0] == 'switch' and 'encode_into' in X.canon(r[1]) and r[2] == ('eq', 0) for r in rels):
                 good = False
+        if not oks:
+            # `self.encode_into(s, &mut buffer).map(|_| buffer)`: Result::map runs the closure (which moves the buffer out) on Ok only
+            e = common.return_expr_single_path_allow(f)
+            en = norm(e) if e is not None else None
+            mm = m(('call~', 'Result::map', (('call~', 'Encode::encode_into'), ('agg', '$tag', '$caps'))), en) if en is not None else None
+            if mm is not None and isinstance(mm['$tag'], tuple) and mm['$tag'][0] == 'closure':
+                cf = db.fns.get(mm['$tag'][1])
+                ce = common.return_expr_single_path_allow(cf) if cf is not None else None
+                # the closure returns its captured buffer
+                if ce is not None and norm(ce)[0] == 'fld' and norm(ce)[1] == ('p', 1):
+                    good = True
         sl = [(bi, t) for bi, t in f.calls() if (f.callee_short(t) or '').endswith('Vec::set_len')]
         cap = [(bi, t) for bi, t in f.calls() if (f.callee_short(t) or '').endswith('Vec::with_capacity')]
         same = bool(sl and cap) and X.canon(norm(R.operand(sl[0][1]['args'][1]))) == X.canon(norm(R.operand(cap[0][1]['args'][0])))
